@@ -61,6 +61,78 @@ def trim_uid(chk, fx, rule):
     chk.expect(len(uses) >= 1, rule, "process_a_association_rq", "abstract-syntax-trimmed", "trim_uid applied to the proposed abstract syntax", len(uses), loc=C.fn_loc(hp))
 
 
+def negotiated_labels(chk, fx, rule):
+    """requestor: each accepted presentation context is labelled with the abstract syntax of the proposal *with the same id* (C29
+    response-processing; C33: storescu chooses a context by that label, so a wrong label sends a file on another class's context)"""
+    chk.rule(rule, "ClientAssociationOptions::process_a_association_resp: negotiated context = (id and transfer syntax of the result item, abstract syntax of proposed.find(|pc| pc.id == c.id)); "
+             "no positional pairing (zip / enumerate / index) of results with proposals")
+    h = fx.method("dicom_ul", "dicom_ul::association::client::ClientAssociationOptions", "process_a_association_resp")
+    st = [y for y in H.walk(h["body"]) if H.kind(y) == "struct" and y[2].endswith("PresentationContextNegotiated")]
+    if not st:
+        raise facts.MissingAnchor("process_a_association_resp: PresentationContextNegotiated construction")
+    for i, s in enumerate(st):
+        f_id, f_ts, f_as = (H.show(H.struct_field(s, k), 4) for k in ("id", "transfer_syntax", "abstract_syntax"))
+        c = f_id.split(".")[0]
+        src = re.match(r"(\w+)\.abstract_syntax", f_as)
+        looked = None
+        if src:
+            bl = [y for y in H.walk(h["body"]) if H.kind(y) == "slet" and H.pat_bindings(y[2]) == [src.group(1)] and y[1] <= s[1]]
+            looked = H.show(bl[-1][3], 9) if bl else None
+        by_id = looked is not None and ".iter().find(" in looked and re.search(rf"\(\w+\.id Eq {c}\.id\)", looked) is not None
+        chk.expect(f_id == f"{c}.id" and f_ts == f"{c}.transfer_syntax" and by_id, rule, "process_a_association_resp", f"negotiated-context#{i}",
+                   "abstract syntax from the proposal found by id", {"id": f_id, "transfer_syntax": f_ts, "abstract_syntax": f_as, "lookup": (looked or "")[:140]}, loc=f"{h['loc']['f']}:{s[1]}")
+    pos = [x[3] for x in H.walk(h["body"]) if H.kind(x) == "mcall" and x[3] in ("zip", "enumerate")]
+    chk.expect(not pos, rule, "process_a_association_resp", "no-positional-pairing", "none", pos, loc=C.fn_loc(h))
+
+
+def value_reader_codec_calls(chk, fx, rule):
+    """the value readers decode units only through the endianness-aware basic decoder, one call per unit kind, and do no byte-order
+    arithmetic of their own (C01/C02: a reader that assembles a tag or number by shifting is right in one byte order only)"""
+    chk.rule(rule, "StatefulDecoder::read_value_*: AT through basic.decode_tag (group then element in stream order); numbers through decode_<kind>_into; "
+             "the only shifts are `len >> k` element counts; no shift / mask / cast arithmetic on decoded units")
+    want = {"read_value_tag": ["decode_tag"], "read_value_us": ["decode_us_into"], "read_value_ss": ["decode_ss_into"], "read_value_ul": ["decode_ul_into"],
+            "read_value_sl": ["decode_sl_into"], "read_value_uv": ["decode_uv_into"], "read_value_sv": ["decode_sv_into"], "read_value_fl": ["decode_fl_into"],
+            "read_value_od": ["decode_fd_into"], "read_u32": ["decode_ul_into"]}
+    for fn, w in want.items():
+        h = fx.method("dicom_parser", "dicom_parser::stateful::decode::StatefulDecoder", fn)
+        decs = [x[3] for x in H.walk(h["body"]) if H.kind(x) == "mcall" and x[3].startswith("decode_")]
+        shifts = [H.show(x, 4) for x in H.walk(h["body"]) if H.kind(x) == "bin" and x[2] in ("Shr", "Shl", "BitOr") and not (x[2] == "Shr" and H.path_of(H.peel(x[3])) == "len")]
+        chk.expect(decs == w and not shifts, rule, fn, "decoder-calls", {"calls": w, "other shifts": []}, {"calls": decs, "other shifts": shifts}, loc=C.fn_loc(h))
+
+
+def fragment_lengths_explicit(chk, fx, rule):
+    """pixel data fragments are always written with their explicit length (PS3.5 A.4): the token generator expands fragments with the
+    default options, so the `force_invalidate_sq_length` option (meant for data set sequences) never reaches ItemValueTokens"""
+    chk.rule(rule, "DataElementTokens::next expands pixel fragments with `.into_tokens()` (default options): fragment items never get an undefined length")
+    hn = fx.find_hir("dicom_parser", lambda p: "DataElementTokens" in p and p.endswith("Iterator>::next"))
+    if len(hn) != 1:
+        raise facts.MissingAnchor("DataElementTokens::next")
+    h = hn[0]
+    made = []
+    for x in H.walk(h["body"]):
+        if H.kind(x) == "call" and (H.callee(x) or "").endswith("DataElementTokens::PixelDataFragments"):
+            for a in H.call_args(x):
+                for y in H.walk(a):
+                    if H.kind(y) == "mcall" and y[3].startswith("into_tokens"):
+                        made.append(y[3])
+    chk.expect(made == ["into_tokens"], rule, "DataElementTokens::next", "PixelDataFragments", ["into_tokens"], made, loc=C.fn_loc(h))
+
+
+def file_create_truncates(chk, fx, rule):
+    """FileDicomObject::write_to_file replaces the target file: File::create (truncating) or OpenOptions with truncate(true)
+    (C32: a shorter re-send of the same instance must not leave the tail of the earlier file behind)"""
+    chk.rule(rule, "FileDicomObject::write_to_file opens the target with File::create, or OpenOptions ... .create(true).truncate(true)")
+    h = fx.find_hir("dicom_object", lambda p: p.endswith("::write_to_file") and "FileDicomObject" in p)
+    if len(h) != 1:
+        raise facts.MissingAnchor(f"FileDicomObject::write_to_file ({len(h)})")
+    h = h[0]
+    cs = [c for c, _ in H.calls(h["body"]) if c]
+    create = any(c.endswith("fs::File::create") for c in cs)
+    trunc = [x for x in H.walk(h["body"]) if H.kind(x) == "mcall" and x[3] == "truncate" and x[5] and H.lit(H.peel(x[5][0])) == ("bool", "true")]
+    opened = [x for x in H.walk(h["body"]) if H.kind(x) == "mcall" and x[3] == "open" and "OpenOptions" in str(x[2])]
+    chk.expect(create or (opened and trunc), rule, "write_to_file", "truncating-create", "File::create(path) or OpenOptions .. truncate(true)", {"File::create": create, "OpenOptions::open": len(opened), "truncate(true)": len(trunc)}, loc=C.fn_loc(h))
+
+
 def writer_text_identity(chk, fx, rule):
     """StatefulEncoder::convert_text_untrailed encodes the given text as it is (C04 exact lengths; C31: the command group length is
     computed from the in-memory text lengths, so the writer must not shorten or lengthen a value beyond the even-length pad)"""
